@@ -127,6 +127,7 @@ def run(seed_ids, all_props, tier):
                 print("%s: check %s -> exit %d %s" % (sid, p, rc, classes[:3]))
         finally:
             sh(["git", "-C", REPO, "checkout", "--", "."])
+            sh(["git", "-C", REPO, "clean", "-fdq", "src", "tests"])   # seeds may add new source files
             assert repo_clean()
         res["caught_by_target"] = res["checks"].get(target, {}).get("exit") == 1
         res["caught_by"] = sorted(p for p, r in res["checks"].items() if r["exit"] == 1)
